@@ -671,8 +671,11 @@ def run(prog, rep, tier):
             gen_ok = c.recv[0] == "ext" and c.recv[1] == "numpy.random.default_rng" and c.recv[2] == (("param", "random_state"),)
             ok = slots.get("low") == ("sub", pn, ("const", 0)) and slots.get("high") == ("sub", pn, ("const", 1)) and \
                 slots.get("size") == pterm and gen_ok and not extra
-            guard = any(pol is True and mentions(cond, ("ext", "isinstance", (pn, ("extref", "tuple")), ())) or
-                        (pol is True and mentions(cond, ("cmp", "==", ("ext", "type", (pn,), ()), ("extref", "tuple")))) for cond, pol in c.path)
+            from ..pred import resolve as _resolve, conj as _conj
+            held = _resolve(_conj(c.path))          # the conditions that hold at the call, in normal form: any spelling of the test
+            guard = ("atom", ("ext", "isinstance", (pn, ("extref", "tuple")), ()), True) in held or npred(("cmp", "==", ("ext", "type", (pn,), ()), ("extref", "tuple")), True) in held or \
+                any(pol is True and mentions(cond, ("ext", "isinstance", (pn, ("extref", "tuple")), ())) or
+                    (pol is True and mentions(cond, ("cmp", "==", ("ext", "type", (pn,), ()), ("extref", "tuple")))) for cond, pol in c.path)
             ok = ok and guard
             def selects(v):
                 # the stored value is the draw itself, or a phi (guard clauses of a helper) one of whose branches is the draw
